@@ -77,12 +77,17 @@ def run(check: Check) -> None:
     maps = [[k] for k in range(n)] + [[0, 0], [3, 1], [6, 2, 2], [1, 5, 0], [4, 4, 4]]
     if thorough:
         maps += [list(p) for p in itertools.permutations(range(n), 2)]
+    from . import formula_gen
+
+    gen_sym = formula_gen.formulas(check.seed * 2 + 11, 150 if thorough else 12, "nobranch")
+    gen_conc = formula_gen.formulas(check.seed * 2 + 12, 120 if thorough else 10, "any")
+    check.bounds["generated_formulas"] = {"symbolic_training": len(gen_sym), "concrete_training": len(gen_conc), "generator": "harness/formula_gen.py (seeded by VERIF_SEED)"}
     cases = []
-    for formula in F_SYM:
+    for formula in F_SYM + gen_sym:
         for out in ("pandas", "numpy"):
             these = maps if thorough else rng.sample(maps, 5)
             cases.append(("S", formula, out, these))
-    for formula in F_CONC:
+    for formula in F_CONC + [f for f in gen_conc if f not in F_CONC]:
         cases.append(("C", formula))
     for i in range(4):
         cases.append(("L1", i))
